@@ -172,7 +172,10 @@ func tupleFamily(name string, spaces []tupleSpace, budget time.Duration) mc.Fami
 			prog := sp.program(idx, op)
 			pr := psrun.NewPair(opTable)
 			if r := pr.Step(preamble); !r.OK || r.Skipped {
-				return mc.Fail("C02:harness:preamble", r.Detail)
+				// the preamble uses def/put/array/string/dict/<< >> only; a difference
+				// here is a difference of the initial state (systemdict contents,
+				// StandardEncoding, errordict, resources) or of those operators
+				return mc.Fail("C02:initial-state-or-preamble:"+r.Class, "after the preamble `"+preamble+"`: "+r.Detail)
 			}
 			r := pr.Step(prog)
 			c.Step()
